@@ -197,7 +197,7 @@ def compare_case(d, want=("rows", "obj"), full_alphabet=True, return_rows=False)
         for o, msg in tr.notes:
             res.add(o, "value", msg)
         # time vectors
-        if tr.tc_declared is not None and not NL.close(tr.tc, tr.tc_declared, 1e-6):
+        if tr.tc_declared is not None and not NL.close(tr.tc, tr.tc_declared, 2e-5 if tr.gkind == "dense_edges" else 1e-6):
             res.add("time:control", "value", "density grid %s vs equidistributed %s" % (tr.tc, tr.tc_declared))
         if not NL.close(q["tc"].reshape(-1), tr.tc, 1e-9) or not NL.close(q["tc_time"].reshape(-1), tr.tc, 1e-9):
             res.add("time:control", "value", "sampled control grid %s vs declared %s" % (q["tc"].reshape(-1), tr.tc))
